@@ -109,3 +109,114 @@ def unit_clearvar(twin=False):
     r.add("clearvars.walks_the_whole_variable_list", DISCHARGED if "v=varbase;while(v!=NULL){clearvar(v);v=v->next;}" in t else FAILED, "syntactic", 0, "", kind="structural")
     r.assumptions += ["array storage release (PHRQ_free / free_dim_stringvar) is not under this contract", "U0/U1 are members of one anonymous union (numeric and string views are exclusive by stringvar)"]
     return r
+
+
+def unit_string_comparison(twin=False):
+    """relexpr on two string operands: =, <, >, <=, >=, <> follow the sign of strcmp(a, b) (lexicographic order), equal strings
+    satisfy =, <=, >= only."""
+    from props import C17 as M
+    from vf.astvc import symex as SX
+    ev = M.token_values()
+    tv = {k.split("::")[-1]: v for k, v in ev.items()}
+    fn0 = A.find_function(PB, "PBasic::relexpr")
+    r = U.new_unit("C17.relexpr.string_operands_follow_strcmp", PB, "PBasic::relexpr", fn0)
+    zero = tm.num(0, "I")
+    n_ops = 0
+    for op in ("tokeq", "toklt", "tokgt", "tokle", "tokge", "tokne"):
+        ctx = M.mkctx(ev); ctx.functional.add("strcmp")
+        def prepare(ex, st, info, k=tv[op]):
+            link = st.locals[info["names"]["LINK"]]
+            t = ex.load(st, ("field", "t", link), "P")
+            st.heap[("f", "kind", "I")] = tm.store(ex.heap_arr(st, ("f", "kind", "I")), (t,), tm.num(k, "I"))
+            n = st.locals[info["names"]["n"]][1]
+            st.heap[("f", "stringval", "B")] = tm.store(ex.heap_arr(st, ("f", "stringval", "B")), (n,), tm.TRUE)
+        fn, ex, iters, info = U.run_loop_isolated(PB, "PBasic::relexpr", 0, ctx=ctx, prepare=prepare)
+        n_addr = tm.sym("&L_n", "P"); n2_addr = tm.sym("&L_n2", "P")
+        got = 0
+        for s in iters:
+            if s.status == "throw" or B.z3_sat(list(s.pc)) == "unsat":
+                continue
+            cs = [e.result for e in U.iter_events(s) if e.name.split("::")[-1] == "strcmp"]
+            if not cs:
+                continue
+            c = cs[0]
+            if any(x is not c for x in cs):
+                r.add("%s.compares_the_same_two_strings_throughout" % op, FAILED, "trace", 0, ""); continue
+            got += 1
+            res = M.nval(ex, s, n_addr)
+            rel = {"tokeq": tm.eq(c, zero), "toklt": tm.lt(c, zero), "tokgt": tm.lt(zero, c), "tokle": tm.le(c, zero), "tokge": tm.le(zero, c), "tokne": tm.not_(tm.eq(c, zero))}[op]
+            if twin and op == "tokle":
+                rel = tm.lt(c, zero)
+            U.discharge_valid(r, "%s.result_is_1_iff_%s" % (op, {"tokeq": "strcmp==0", "toklt": "strcmp<0", "tokgt": "strcmp>0", "tokle": "strcmp<=0", "tokge": "strcmp>=0", "tokne": "strcmp!=0"}[op]),
+                              list(s.pc), tm.eq(res, tm.ite(rel, tm.num(1), tm.num(0))))
+        if got:
+            n_ops += 1
+        else:
+            r.add("%s.reach" % op, UNDECIDED, "symex", 0, "no string path", kind="vacuity")
+    r.add("reach.operators", DISCHARGED if n_ops == 6 else UNDECIDED, "symex", 0, "%d of 6" % n_ops, kind="vacuity")
+    r.assumptions += ["strcmp is the C library's lexicographic comparison", "both operand strings are released afterwards (not under this unit)"]
+    return r
+
+
+def unit_findvar_subscripts(twin=False):
+    """Array element addressing in findvar: every subscript is inside its dimension (0 <= j < dims[d]; negative values are rejected by
+    the unsigned comparison), and the offset is the row-major Horner form k' = k * dims[d] + j with the extent of the SAME dimension —
+    so the element lies inside the allocation and distinct index tuples address distinct elements."""
+    from props import C17 as M
+    ev = M.token_values()
+    c = M.mkctx(ev); c.model_unsigned = True
+    def thr(ex_, st, n, name, recv, args):
+        st.status = "throw"; return [(st, tm.num(0, "I"))]
+    c.handlers["PBasic::badsubscr"] = thr
+    fn = A.find_function(PB, "PBasic::findvar")
+    r = U.new_unit("C17.findvar.subscripts_in_range_and_row_major", PB, "PBasic::findvar", fn)
+    k = loop_ordinal(fn, PB, init_text="i=1", cond_text="i<=FORLIM")
+    f, ex, its, info = U.run_loop_isolated(PB, "PBasic::findvar", k, ctx=c)
+    n = 0
+    for s in its:
+        if s.status == "throw" or B.z3_sat(list(s.pc)) == "unsat":
+            continue
+        n += 1
+        v = local(info, s, "v"); i = tm.sym("iter_i", "I")
+        j = local(info, s, "j"); k1 = local(info, s, "k"); k0 = tm.sym("iter_k", "I")
+        dim = tm.select(entry_arr(ex, s, ("m", "I")), tm.app("fld:dims", (v,), "P"), i - tm.num(1, "I"))
+        if twin:
+            dim = tm.select(entry_arr(ex, s, ("m", "I")), tm.app("fld:dims", (v,), "P"), i)
+        inv = [tm.le(tm.num(1, "I"), dim), tm.lt(dim, tm.num(2 ** 31, "I"))]       # representation invariant of varrec: extents are positive ints
+        hy = list(s.pc) + inv + [tm.le(tm.num(-2 ** 63, "I"), j), tm.lt(j, tm.num(2 ** 63, "I"))]     # j is a long
+        U.discharge_valid(r, "subscript>=0", hy, tm.le(tm.num(0, "I"), j))
+        U.discharge_valid(r, "subscript<extent_of_its_dimension", hy, tm.lt(j, dim))
+        U.discharge_valid(r, "offset==k*extent_of_this_dimension+subscript", hy, tm.eq(k1, k0 * dim + j))
+    r.add("reach.subscript_paths", DISCHARGED if n >= 1 else UNDECIDED, "symex", 0, "%d" % n, kind="vacuity")
+    t = text_of(PB, fn)
+    r.add("offset_starts_at_0", DISCHARGED if "k=0;LINK->t=LINK->t->next;FORLIM=v->numdims;" in t else FAILED, "syntactic", 0, "", kind="establishment")
+    r.add("element_addressed_is_arr[k]", DISCHARGED if "v->UU.U1.sval=&v->UU.U1.sarr[k];" in t and "v->UU.U0.val=&v->UU.U0.arr[k];" in t else FAILED, "syntactic", 0, "", kind="post")
+    r.assumptions += ["64-bit unsigned long (conversion of a negative long wraps to 2^64 + v)", "extents of a dimensioned variable are positive (set by DIM / the implicit 11)",
+                      "badsubscr() reports a BASIC error and does not return", "two text anchors"]
+    return r
+
+
+def unit_cmdrestore(twin=False):
+    """RESTORE n positions the DATA pointer at the first token of line n: dataline and datatok move together (in the library build,
+    i.e. without the GUI's parse-only mode, on every path)."""
+    from props import C17 as M
+    q = "PBasic::cmdrestore"
+    fn = A.find_function(PB, q)
+    r = U.new_unit("C17.cmdrestore.data_pointer_moves_with_the_data_line", PB, q, fn)
+    c = M.mkctx(M.token_values()); c.functional.update({"iseos", "mustfindline", "intexpr"})
+    f, ex, fin, info = U.run_function(PB, q, ctx=c)
+    n = 0
+    for s in [s for s in fin if s.status in ("ret", "run") and B.z3_sat(list(s.pc)) != "unsat"]:
+        wl = writes(s, ("f", "dataline", "P")); wt = writes(s, ("f", "datatok", "P"))
+        gui = fld0(ex, s, "phreeqci_gui", "B")
+        if not wl:
+            continue                      # plain RESTORE: restoredata()
+        n += 1
+        line = wl[-1][1]
+        lib = B.z3_sat(list(s.pc) + [tm.not_(tm.to_bool(gui))]) != "unsat"      # spec-side case: a path the library build can take
+        if lib or twin:
+            ok = len(wt) == 1 and wt[0][1] is fld0(ex, s, "txt", "P", line)
+            r.add("library_build.datatok==first_token_of_the_new_data_line", DISCHARGED if ok and not twin else FAILED, "symex", 0, repr(wt)[:120])
+    r.add("reach.RESTORE_with_line_number", DISCHARGED if n >= 2 else UNDECIDED, "symex", 0, "%d paths" % n, kind="vacuity")
+    r.assumptions += ["mustfindline returns the line record of that number or reports an error (not under contract)", "GUI parse-only mode is outside the library's behaviour"]
+    return r
